@@ -60,6 +60,11 @@ drainHdr:
 		intsPool[i] = sync.Pool{New: func() interface{} { return make([]int, size) }}
 	}
 	optPool = &sync.Pool{New: func() interface{} { return new(OpOpt) }}
+	// the per-size pools of scalar buffers are created on first use: forget them, so that
+	// every case starts as cold as a fresh process
+	scalarRCLock.Lock()
+	scalarRC = make(map[uintptr]*sync.Pool)
+	scalarRCLock.Unlock()
 	verifMu.Lock()
 	verifParked = map[uintptr][]int{}
 	verifEvents = nil
